@@ -340,14 +340,14 @@ func TestVerifRequestLoop(t *testing.T) {
 		regs := e.cl.OnlineRegions("t")
 		parked, release := make(chan struct{}), make(chan struct{})
 		var once atomic.Bool // not sync.Once: later callers must not block on a mutex while the first one is parked
-		VerifHook = func(point string, c any, arg any) {
+		simSetHook(func(point string, c any, arg any) {
 			if r, ok := arg.(hrpc.RegionInfo); ok && point == "establish.clientSet" && string(r.Name()) == string(regs[0].Name) {
 				if once.CompareAndSwap(false, true) {
 					close(parked)
 					<-release
 				}
 			}
-		}
+		})
 		e.goGet("a")
 		<-parked
 		e.cl.ResetConns(regs[0].Host) // the freshly set client is dead before the region is released
@@ -369,14 +369,14 @@ func TestVerifRequestLoop(t *testing.T) {
 		synctest.Wait()
 		parked, release := make(chan struct{}), make(chan struct{})
 		var once atomic.Bool
-		VerifHook = func(point string, c any, arg any) {
+		simSetHook(func(point string, c any, arg any) {
 			if r, ok := arg.(hrpc.RegionInfo); ok && point == "establish.clientSet" && string(r.Name()) == string(regs[0].Name) {
 				if once.CompareAndSwap(false, true) {
 					close(parked)
 					<-release
 				}
 			}
-		}
+		})
 		e.goGet("a") // region 0: its establisher shares the connection, probes, parks before MarkAvailable
 		<-parked
 		e.cl.ResetConns("rs1")
@@ -396,14 +396,14 @@ func TestVerifRequestLoop(t *testing.T) {
 		synctest.Wait()
 		parked, release := make(chan struct{}), make(chan struct{})
 		var once atomic.Bool // not sync.Once: later callers must not block on a mutex while the first one is parked
-		VerifHook = func(point string, c any, arg any) {
+		simSetHook(func(point string, c any, arg any) {
 			if point == "clientDown.removed" {
 				if once.CompareAndSwap(false, true) {
 					close(parked)
 					<-release
 				}
 			}
-		}
+		})
 		e.cl.ResetConns(regs[0].Host)
 		e.goGet("a") // meets the dead connection, parks inside clientDown after the cache removal
 		<-parked
